@@ -7,7 +7,8 @@
 // scenario. Nothing here judges: spec/TraceLife.tla does.
 //
 //   h_life <scenario-file> <scratch-dir> <parallel>
-// scenario line:  <id> <clock:sys|tsc> <gate:0|1|2> <sync:turn|free> <soft:0|1> <sleep_us:-1|n> <sh:0|1> <named:0|1> step...
+// scenario line:  <id> <clock:sys|tsc> <gate:0|1|2> <sync:turn|free> <soft:0|1> <sleep_us:-1|n> <sh:0|1> <named:0|1>
+//                 <wait:0|1 = BackendOptions::wait_for_queues_to_empty_before_exit> step...
 //   steps: S<t> start  L<t> log  P<t> stop  F<w> worker w returns and is joined  X<t>:<code> exit(code)  R return
 //          from main   G<t>:<signum>:<flavour>  signal at thread t; flavour r raise(), f real fault / abort(),
 //          k<u> pthread_kill from thread u while t is parked between two statements, p process-directed kill that
@@ -100,6 +101,7 @@ struct Scenario
   long sleep_us{-1};
   bool sh{true};
   bool named{false};
+  bool wait{true};
   std::vector<Step> steps;
 };
 
@@ -108,6 +110,7 @@ Shm* g_shm = nullptr;
 Scenario const* g_scn = nullptr;
 quill::Logger* g_logger = nullptr;
 std::atomic<bool> g_gate_open{true};
+std::atomic<bool> g_starting{false}; // Backend::start in progress: the gate is already closed, is_running() not yet true
 int g_nlog[MAXT] = {0, 0, 0};
 std::thread* g_threads[MAXT] = {nullptr, nullptr, nullptr};
 int g_block_sig = 0; // signal the non-target threads keep blocked (flavour p)
@@ -183,7 +186,7 @@ void gatekeeper()
   for (;;)
   {
     bool const open = g_gate_open.load();
-    if (!open)
+    if (!open && !g_starting.load())
     {
       if (was_open) closed_since = std::chrono::steady_clock::now();
       uint32_t const ending = g_shm->ending.load();
@@ -226,7 +229,15 @@ void do_start(int t)
   quill::BackendOptions bo;
   if (g_scn->sleep_us >= 0) bo.sleep_duration = std::chrono::microseconds{g_scn->sleep_us};
   if (g_scn->soft1) bo.transit_events_soft_limit = 1;
+  bo.wait_for_queues_to_empty_before_exit = g_scn->wait;
   bo.error_notifier = [](std::string const&) {};
+  // the hold gate is closed BEFORE the backend starts, so that the very first statement it processes holds it
+  bool const hold = g_scn->gate == 1 && !quill::Backend::is_running();
+  if (hold)
+  {
+    g_starting.store(true);
+    g_gate_open.store(false);
+  }
   if (g_scn->sh)
   {
     quill::SignalHandlerOptions so;
@@ -239,7 +250,11 @@ void do_start(int t)
     quill::Backend::start(bo);
   }
   bool const running = quill::Backend::is_running();
-  if (g_scn->gate == 1 && running) g_gate_open.store(false);
+  if (hold)
+  {
+    if (!running) g_gate_open.store(true);
+    g_starting.store(false);
+  }
   emit(EV_STARTRET, t, running ? 1 : 0);
 }
 
@@ -479,8 +494,9 @@ bool parse_scenario(std::string const& line, Scenario& sc)
 {
   std::istringstream is(line);
   std::string clock, sync, tok;
-  int soft, sh, named;
-  if (!(is >> sc.id >> clock >> sc.gate >> sync >> soft >> sc.sleep_us >> sh >> named)) return false;
+  int soft, sh, named, wait;
+  if (!(is >> sc.id >> clock >> sc.gate >> sync >> soft >> sc.sleep_us >> sh >> named >> wait)) return false;
+  sc.wait = wait != 0;
   sc.tsc = (clock == "tsc");
   sc.free_mode = (sync == "free");
   sc.soft1 = soft != 0;
